@@ -28,14 +28,14 @@ M = [
  ('timeout_swallowed_true', 'inference/inference.py', "            except TimeoutError:\n                result_dict[index] = (\n                    index,\n                    False,\n                    True,", "            except TimeoutError:\n                result_dict[index] = (\n                    index,\n                    True,\n                    False,", ['C14']),
  ('rc2_no_deadline_poll', 'inference/optimizer.py', "                if deadline and deadline.expired():\n                    raise TimeoutError\n", "", []),
  ('z3_unknown_as_unsat', 'inference/system_w_z3.py', "            if check != sat:\n                # the solver gave up (time budget exhausted): no model may be read; report\n                # the query as timed out instead of treating 'unknown' like 'sat'\n                raise TimeoutError", "            if check != sat:\n                return xi_i_set", ['C14']),
- ('save_no_restore', 'inference/preocf.py', "        finally:\n            for attr, value in non_picklable_backups.items():\n                setattr(self, attr, value)", "            for attr, value in non_picklable_backups.items():\n                setattr(self, attr, value)\n        finally:\n            pass", ['C20']),
+ ('save_no_restore', 'inference/preocf.py', "        try:\n            with path.open(\"wb\") as fd:\n                pickle.dump(self, fd, protocol=protocol)\n        finally:\n", "        if True:\n            with path.open(\"wb\") as fd:\n                pickle.dump(self, fd, protocol=protocol)\n        if True:\n", ['C20']),
  ('formula_rank_first', 'inference/preocf.py', "                if min_rank is None or rank < min_rank:\n                    min_rank = rank", "                if min_rank is None:\n                    min_rank = rank", ['C18', 'C16']),
  ('accept_le', 'inference/preocf.py', "        return v_rank < n_rank", "        return v_rank <= n_rank", ['C18', 'C16', 'C17']),
  ('marginalize_max', 'inference/preocf.py', "                    ranks[new_world] = min(curr_rank, world_rank)", "                    ranks[new_world] = max(curr_rank, world_rank)", ['C18']),
- ('zrank_infeasible_off_by_one', 'inference/preocf.py', "                return 0\n            return self._rec_z_rank(solver, partition_index - 1)\n        return partition_index + 1\n\n    @property", "                return 0\n            return self._rec_z_rank(solver, partition_index - 1)\n        return partition_index + 1 if partition_index < len(self._z_partition) - 1 or not self.uses_extended_partition else partition_index\n\n    @property", ['C16']),
+ ('zrank_infeasible_off_by_one', 'inference/preocf.py', "            return self._rec_z_rank(solver, partition_index - 1)\n        return partition_index + 1\n", "            return self._rec_z_rank(solver, partition_index - 1)\n        return partition_index + (0 if self.uses_extended_partition and partition_index == len(self._z_partition) - 1 else 1)\n", ['C16']),
  ('crevmodel_no_discard', 'inference/c_revision_model.py', "            self.world_rej[w].discard(index)", "            pass", ['C19']),
  ('compile_fast_mask', 'inference/c_revision.py', "                if bits[a_idx] == a_val:\n                    if bits[c_idx] == c_val:\n                        accepted_list.append(cast(int, cond.index))", "                if bits[a_idx] == a_val:\n                    if bits[c_idx] == c_val and a_idx != c_idx:\n                        accepted_list.append(cast(int, cond.index))", ['C19']),
- ('crep_impacts_by_position', 'inference/preocf.py', "            if solver.solve():\n                rank += self._impacts[idx - 1]\n        return rank\n\n    def export_impacts", "            if solver.solve():\n                rank += self._impacts[min(idx, len(self._impacts) - 1)]\n        return rank\n\n    def export_impacts", ['C17', 'C20']),
+ ('crep_impacts_off_by_one', 'inference/preocf.py', "            solver.add_assertion(cond.make_A_then_not_B())\n            if solver.solve():\n                rank += self._impacts[idx - 1]\n        return rank\n\n    # ------------------------------------------------------------------", "            solver.add_assertion(cond.make_A_then_not_B())\n            if solver.solve():\n                rank += self._impacts[(idx - 2) % len(self._impacts)]\n        return rank\n\n    # ------------------------------------------------------------------", ['C17', 'C20']),
  ('tseitin_drop_false', 'inference/tseitin_transformation.py', "                cnf.extend([[false_id], [-false_id]])\n                continue", "                continue", ['C15', 'C03']),
  ('general_inference_only_A', 'inference/inference.py', "        if is_unsat(query.antecedence) or is_unsat(\n            And(query.antecedence, Not(query.consequence))\n        ):", "        if is_unsat(query.antecedence):", ['C01', 'C02', 'C09']),
  ('load_meta_update_wrong', 'inference/preocf.py', "        self._metadata.update(data)", "        self._metadata = data if not self._metadata else self._metadata", ['C20']),
